@@ -247,7 +247,7 @@ func init() {
 		Rule: "each case builds 4 Document values (variant k mod 12 forced for the first: nil metadata, nil node list, both nil, NewDocument, no roots, many roots, cyclic containment, random cyclic containment below several top-level components (serialized 11 times), dangling root, nil maps/slices, every subset of DocumentType's optional fields, non-numeric version, plain populated; " +
 			"reflection-populated fields, unknown enum numbers, empty/duplicate/generated ids, dangling edge endpoints, arbitrary text incl. invalid UTF-8; half of them passed through proto.Marshal/Unmarshal) and serializes them in all 8 registered formats (CycloneDX 1.0-1.5, SPDX 2.3, SPDX 3 beta) " +
 			"in the schedule d0,d1,d0,d2,d3,d0 inside a supervised child: recover() catches panics, the parent attributes process deaths, the CPU/heap watchdog decides hangs; the three outputs of d0 per format must be equal after removing creation timestamps and sorting all arrays; " +
-			"the serialized document must be unchanged. distinct = hash of (variant, d0); non-trivial = d0 has nodes or lacks metadata/node list.",
+			"the serialized document must be unchanged. Nodes also carry several identifiers competing for one output slot (one possibly empty), identifiers that look like generated ones (reserved prefix with the separator missing, empty flags, bare separators), present-but-empty map values, empty and repeated list elements. distinct = hash of (variant, d0); non-trivial = d0 has nodes or lacks metadata/node list.",
 		Assumptions: []string{"nil elements inside repeated message fields are not generated (not a value protobuf decoding produces)", "determinism is compared modulo the order of ALL arrays (coarser than set-valued arrays only)"},
 		NCases: func(tier string) int {
 			if tier == "thorough" {
